@@ -10,6 +10,7 @@ package main
 import (
 	"fmt"
 	"go/token"
+	"go/types"
 	"strings"
 
 	"golang.org/x/tools/go/ssa"
@@ -389,3 +390,80 @@ func ruleNoMapWriteUnderRLock(r *Run) {
 	}
 	r.check(nRead >= 20, "repo:read-locked-functions", fmt.Sprintf("%d functions taking a read lock examined, %d map writes inside a section of the same object's lock", nRead, nSites), "too few functions with read locks: rule needs review", "-")
 }
+
+// ---------------------------------------------------------------------------------------------
+// R20.18 — nothing that can panic on request data runs under a lock that only an explicit Unlock releases
+
+func init() {
+	register(ruleDef{ID: "R20.18", Prop: "C20", Tier: "quick", Floor: 1,
+		Title: "a recovered panic cannot leave a lock behind: an unchecked type assertion (x.(T) without comma-ok) is not executed between a Lock and its explicit, non-deferred Unlock (the HTTP layer recovers the panic, the lock stays held and every later request on that object blocks)",
+		Fn:    rulePanicUnderLock})
+}
+
+func rulePanicUnderLock(r *Run) {
+	w := r.W
+	nLocked, nAsserts := 0, 0
+	for _, f := range w.RepoFuncs {
+		if len(f.Blocks) == 0 || strings.HasSuffix(w.fposFile(f), "_test.go") {
+			continue
+		}
+		p := relPkg(pkgPathOf(f))
+		if !strings.HasPrefix(p, "datatype/") && p != "datastore" && p != "server" {
+			continue
+		}
+		// mutex keys locked in f, and those released by a deferred unlock
+		keys := map[string]string{}
+		deferred := map[string]bool{}
+		for _, b := range f.Blocks {
+			for _, in := range b.Instrs {
+				if op, ok := asLockOp(in); ok && op.lock {
+					keys[op.key] = op.name
+				}
+				if d, ok := in.(*ssa.Defer); ok {
+					if callee := d.Call.StaticCallee(); callee != nil && strings.HasPrefix(callee.String(), "(*sync.") && (callee.Name() == "Unlock" || callee.Name() == "RUnlock") && len(d.Call.Args) > 0 {
+						k, _, _ := mutexKey(d.Call.Args[0])
+						deferred[k] = true
+					}
+				}
+			}
+		}
+		if len(keys) == 0 {
+			continue
+		}
+		nLocked++
+		k := 0
+		for _, b := range f.Blocks {
+			for _, in := range b.Instrs {
+				ta, ok := in.(*ssa.TypeAssert)
+				if !ok || ta.CommaOk {
+					continue
+				}
+				for key, name := range keys {
+					if deferred[key] {
+						continue
+					}
+					held, _ := heldKeyAt(f, in, key)
+					if !held {
+						continue
+					}
+					nAsserts++
+					k++
+					// a type switch / preceding comma-ok test of the same value makes the assertion safe
+					safe := false
+					if ta.X.Referrers() != nil {
+						for _, ref := range *ta.X.Referrers() {
+							if t2, ok := ref.(*ssa.TypeAssert); ok && t2.CommaOk && types_Identical(t2.AssertedType, ta.AssertedType) && t2.Block().Dominates(ta.Block()) {
+								safe = true
+							}
+						}
+					}
+					r.check(safe, fmt.Sprintf("%s:type-assert#%d:under-%s", fname(f), k, name), "guarded by a comma-ok test of the same value",
+						"an unchecked type assertion runs while "+name+" is held and only an explicit Unlock releases it: a value of another type (request data) panics, the HTTP layer recovers, the lock is never released and later requests on the object block for ever", w.pos(ta.Pos()))
+				}
+			}
+		}
+	}
+	r.check(nLocked >= 20, "repo:locking-functions", fmt.Sprintf("%d locking functions examined, %d unchecked assertions inside explicitly released sections", nLocked, nAsserts), "too few: rule needs review", "-")
+}
+
+func types_Identical(a, b types.Type) bool { return types.Identical(a, b) }
